@@ -48,7 +48,29 @@ func VfC15_History() {
 			addr := vfAddrs[nd.Concrete(nd.Choice("addr", len(vfAddrs)))]
 			typ := Type(nd.Concrete(nd.IntRange("type", int(TypeMain), int(TypeBackup))))
 			h := NewWithType(addr, typ)
-			if op == 0 {
+			if op == 0 && nd.Param("batches", 0) == 1 && nd.Bool("batch-of-two") {
+				// one update announcing two endpoints, possibly the same address twice (types may differ)
+				addr2 := vfAddrs[nd.Concrete(nd.Choice("addr2", len(vfAddrs)))]
+				typ2 := Type(nd.Concrete(nd.IntRange("type2", int(TypeMain), int(TypeBackup))))
+				h2 := NewWithType(addr2, typ2)
+				olds := map[string]*Host{addr: members[addr], addr2: members[addr2]}
+				set.Add(h, h2)
+				for _, a := range []string{addr, addr2} {
+					m := set.all[a]
+					nd.Assert(m != nil && m.Addr == a, "after Add every announced address is a member")
+					if m == nil {
+						return
+					}
+					if a == addr2 {
+						nd.Assert(m.Type == typ2 || (addr == addr2 && m.Type == typ), "the member has an announced type")
+					}
+					if old := olds[a]; old != nil && old != m {
+						nd.Assert(vfRemoved(old), "a member replaced by a new announcement is signalled as removed")
+					}
+					members[a] = m
+					seen = append(seen, m)
+				}
+			} else if op == 0 {
 				old := members[addr]
 				set.Add(h)
 				// which object is the member after an address is announced again is the set's
@@ -149,5 +171,33 @@ func VfC15_MarkVsRemove() {
 		nd.Assert(set.all[g.Addr] == g, "every usable host is the current member for its address (no replaced object is reported)")
 	}
 	nd.Assert(vfRemoved(h) || set.all[h.Addr] == h, "a host that is no longer the member for its address is signalled as removed")
+	nd.Cover("raced")
+}
+
+// VfC15_MarkVsMark: two health transitions of the same member race (a passive failure report and
+// the active checker, or two checkers): whatever the interleaving, afterwards the member is
+// reported as usable exactly if it is marked healthy.
+func VfC15_MarkVsMark() {
+	nd.VisibleAtomics(true)
+	h := New(vfAddrs[0])
+	other := New(vfAddrs[1])
+	set := NewSet(h, other)
+	if nd.Bool("starts-unhealthy") {
+		set.MarkHostUnhealthy(h)
+	}
+	go func() { set.MarkHostHealthy(h) }()
+	go func() { set.MarkHostUnhealthy(h) }()
+	if nd.Bool("third-mark") {
+		go func() { set.MarkHostHealthy(h) }()
+	}
+	nd.Quiesce()
+	usable := false
+	for _, g := range set.Healthy() {
+		if g == h {
+			usable = true
+		}
+	}
+	nd.Class("mark-vs-mark-map-out-of-step", true)
+	nd.Assert(usable == h.IsHealthy(), "after racing health marks the member is usable exactly if it is marked healthy")
 	nd.Cover("raced")
 }
